@@ -16,13 +16,18 @@ def built():
             out.append(p)
     return out
 
+_BASE = {}
+
+
 def one(args):
     name, prop = args
     with open("/verif/seeded/%s/patch.diff" % name) as f:
         ov = apply_patch_text("/repo", f.read())
     if ov is None:
         return name, prop, "noapply", ""
-    base = analyse(prop)
+    if prop not in _BASE:
+        _BASE[prop] = analyse(prop)
+    base = _BASE[prop]
     bk = {f.key() for f in base.findings}
     ctx = analyse(prop, overlay=ov)
     new = [f for f in ctx.findings if f.key() not in bk]
